@@ -331,7 +331,8 @@ STOP_MS = 700
 # (stop-shutdown-cont is drawn eight times: the shutdown signal and SIGCONT both reach nextest while it is stopped, and which of the
 #  two it handles first once continued is its own choice — tokio's StreamMap polls from a random start)
 PHASES = ["run", "timeout", "grace", "delay", "stop-shutdown-cont", "info", "grace-shutdown", "grace-stop-second-shutdown", "grace-twice", "drain", "delay-twice",
-          "stop-shutdown-cont", "stop-shutdown-cont", "stop-shutdown-cont", "stop-shutdown-cont", "stop-shutdown-cont", "stop-shutdown-cont", "stop-shutdown-cont"]
+          "stop-shutdown-cont", "stop-shutdown-cont", "stop-shutdown-cont", "stop-shutdown-cont", "stop-shutdown-cont", "stop-shutdown-cont", "stop-shutdown-cont",
+          "script"]
 RETRY_OVERRIDE = """
 [[profile.default.overrides]]
 filter = 'test(/^delay_/)'
@@ -343,10 +344,19 @@ def gen_stop(seed, k):
     rng = random.Random(seed * 9151 + k)
     sc = e2e.Scenario(f"stop{k}")
     phase = PHASES[k % len(PHASES)] if k < 2 * len(PHASES) else rng.choice(PHASES)
-    tests = []; sigs = []; extra = ""
+    tests = []; sigs = []; extra = ""; head = ""
     P, K, G = 400, 3, 300
     def trig_started(t): return "TestStarted " + key_of(t["bin"], t["pkg"], t["name"])
-    if phase == "run":
+    if phase == "script":
+        # a setup script is the running unit when nextest is stopped (no test is running yet): it is a unit like any other — stopped
+        # and continued with nextest, its 1200 ms deadline and its reported duration counting its 900 ms of running time only
+        sc.scripts.append(("s1", ["ignore:18", "work:900", "exit:0"]))
+        head = 'experimental = ["setup-scripts"]\n'
+        extra = '[script.s1]\ncommand = ["@VSCRIPT@", "s1"]\n' + 'slow-timeout = { period = "400ms", terminate-after = 3, grace-period = "300ms" }\n' + "[[profile.default.scripts]]\nfilter = 'all()'\nsetup = [\"s1\"]\n"
+        t2 = {"bin": "t_two", "pkg": "alpha", "name": "fast_1", "kind": "fast", "run_ms": 30}
+        sc.test("t_two", "fast_1", ["work:30", "exit:0"]); tests.append(t2)
+        sigs = [("SetupScriptStarted", 1, 300, signal.SIGTSTP), ("SetupScriptStarted", 1, 300 + STOP_MS, signal.SIGCONT)]
+    elif phase == "run":
         # runs 900 ms of running time under a 1200 ms deadline: stopped 700 ms in the middle it must still pass, un-signalled
         t = {"bin": "t_one", "pkg": "alpha", "name": "work_0", "kind": "work", "run_ms": 900}
         # (a descendant in the test's process group lives through the stop: the whole group must be stopped, not only its leader)
@@ -420,7 +430,7 @@ def gen_stop(seed, k):
         sc.test("t_two", "delay_1", {"1": ["exit:1"], "2": ["work:40", "exit:0"]}); tests.append(t2)
         extra = RETRY_OVERRIDE
         sigs = [(trig_started(t), 1, 300, signal.SIGUSR1), (trig_started(t), 1, 1100, signal.SIGUSR1)]
-    sc.config = base_config(P, K, G, extra, threads=4, leak=(1500 if phase == "drain" else 200))
+    sc.config = head + base_config(P, K, G, extra, threads=4, leak=(1500 if phase == "drain" else 200))
     sc.signals = sigs
     sc.timeout_s = 12
     sc.meta = {"tests": tests, "family": "stop", "phase": phase, "P": P, "K": K, "G": G, "leak": 1500 if phase == "drain" else 200}
@@ -522,6 +532,21 @@ def mon_stop(sc, r):
             got = ms(fin_ns - base)
             if got < G - SLACK_LO - 100: V("early", f"[{phase}] killed {got:.0f} ms into a {G} ms grace period (running time)")
             if got > G + SLACK_HI: V("late", f"[{phase}] killed {got:.0f} ms after the grace period began (grace {G} ms): the grace clock did not resume")
+    if phase == "script":
+        sp = sorted([p for p in r.procs if p.get("bin") == "vscript" and p.get("start") and not p.get("child")], key=lambda p: p["start"])
+        sfin = [d for (ns, k, d) in r.events if k == "SetupScriptFinished"]
+        if len(sp) != 1 or len(sfin) != 1: V("once", f"[{phase}] setup script: {len(sp)} processes, {len(sfin)} SetupScriptFinished events")
+        else:
+            p = sp[0]; res, taken = sfin[0].split(" ")[2], int(sfin[0].split(" ")[4][:-2])
+            sigs = [(s, ms(ns - p["start"])) for (ns, s) in p["sigs"]]
+            gaps = [g for (_, g) in p.get("gaps", [])]
+            if not gaps or max(gaps) < stopped_ms - 250: V("test-not-stopped", f"[{phase}] the setup script was not stopped while nextest was (gaps in its own clock: {gaps}, nextest stopped {stopped_ms:.0f} ms): every running unit's process group is stopped, and a setup script is a unit")
+            if 18 not in [s for (s, _) in sigs]: V("test-not-continued", f"[{phase}] the setup script never received SIGCONT (signals {sigs})")
+            if res != "P": V("result", f"[{phase}] the setup script needs 900 ms of running time (deadline 1200 ms) but is reported {res}")
+            if [s for (s, _) in sigs if s in (15, 9)]: V("signalled", f"[{phase}] the setup script was signalled {sigs}: time spent stopped was charged against its slow-timeout")
+            if taken > 900 + 350: V("duration", f"[{phase}] setup script: reported duration {taken} ms for 900 ms of running time (stopped {stopped_ms:.0f} ms must be excluded)")
+            if taken < 900 - SLACK_LO: V("duration", f"[{phase}] setup script: reported duration {taken} ms < 900 ms of running time")
+        if r.exit != 0: V("exit", f"[{phase}] exit status {r.exit}, expected 0 (stop/continue must not change results)")
     if phase == "info":
         starts = [(ns, d) for (ns, k, d) in r.events if k == "InfoStarted"]
         resp = [(ns, d) for (ns, k, d) in r.events if k == "InfoResponse"]
